@@ -358,6 +358,7 @@ void exception_signals(void) {
 
 void exception_try(jmp_buf* env) {
   struct Exception* e = current(Exception);
+  CELLO_VERIF_POINT(CELLO_VP_EXC_TRY, e);
   if (e->depth is EXCEPTION_MAX_DEPTH) {
     fprintf(stderr, "Cello Fatal Error: Exception Buffer Overflow!\n");
     abort();
@@ -373,6 +374,7 @@ var exception_throw(var obj, const char* fmt, var args) {
   
   e->obj = obj;
   print_to_with(e->msg, 0, fmt, args);
+  CELLO_VERIF_POINT(CELLO_VP_EXC_THROW, e);
   
   if (Exception_Len(e) >= 1) {
     longjmp(*Exception_Buffer(e), 1);
@@ -387,6 +389,7 @@ var exception_throw(var obj, const char* fmt, var args) {
 var exception_catch(var args) {
   
   struct Exception* e = current(Exception);
+  CELLO_VERIF_POINT(CELLO_VP_EXC_CATCH, e);
   
   if (not e->active) { return NULL; }
   
@@ -419,6 +422,7 @@ var exception_catch(var args) {
 
 void exception_try_end(void) {
   struct Exception* e = current(Exception);
+  CELLO_VERIF_POINT(CELLO_VP_EXC_TRY_END, e);
   if (e->depth == 0) {
     fprintf(stderr, "Cello Fatal Error: Exception Buffer Underflow!\n");
     abort();
